@@ -159,6 +159,12 @@ def _make(src):
             return out
         return PyFunction(func=rev, input_size=n)
     if src['rep'] == 'TruthTable':
+        # the three accepted spellings of a table: bools, '0'/'1' strings, 0/1 integers
+        v = (n + m + sum(len(t) for t in tt)) % 3
+        if v == 1:
+            return TruthTable([''.join('1' if x else '0' for x in row) for row in table])
+        if v == 2:
+            return TruthTable([[int(x) for x in row] for row in table])
         return TruthTable(table)
     if src['rep'] == 'Circuit':
         return _dnf_circuit(n, m, tt, direct=bool(src.get('direct')))
@@ -251,7 +257,13 @@ def record(src):
                 'chk': [], 'chk_at': [], 'gmtt': [], 'res': []}
         try:
             if src['rep'] == 'TruthTableModel':
-                model = TruthTableModel([[tri(v) for v in row] for row in mtt])
+                v = (n + m + sum(sum(row) for row in mtt)) % 3
+                if v == 1:      # rows spelled as strings over 0 / 1 / *
+                    model = TruthTableModel([''.join('*' if x == 2 else str(x) for x in row) for row in mtt])
+                elif v == 2:    # integers and DontCare
+                    model = TruthTableModel([[DontCare if x == 2 else int(x) for x in row] for row in mtt])
+                else:
+                    model = TruthTableModel([[tri(v_) for v_ in row] for row in mtt])
             else:
                 cols = [[tri(mtt[o][ri]) for o in range(m)] for ri in range(2 ** n)]
 
@@ -261,7 +273,12 @@ def record(src):
                         idx = idx * 2 + (1 if a else 0)
                     return list(cols[idx])
 
-                model = PyFunctionModel(lookup, input_size=n)
+                if n == 2 and (m + sum(sum(row) for row in mtt)) % 2:
+                    model = PyFunctionModel.from_positional(lambda a, b: lookup([a, b]))
+                elif n == 3 and (m + sum(sum(row) for row in mtt)) % 2:
+                    model = PyFunctionModel.from_positional(lambda a, b, c: lookup([a, b, c]))
+                else:
+                    model = PyFunctionModel(lookup, input_size=n)
             case['chk'] = [[code(model.check(list(x))[o]) for x in rows] for o in range(m)]
             case['chk_at'] = [[code(model.check_at(list(x), o)) for x in rows] for o in range(m)]
             case['gmtt'] = [[code(v) for v in row] for row in model.get_model_truth_table()]
